@@ -162,14 +162,25 @@ func (r *rwRT) ruleGensym() {
 
 // calledFrom: does `from` (or one of its closures) statically call target?
 func calledFrom(from, target *ssa.Function) bool {
+	return calledFromDepth(from, target, 3)
+}
+
+func calledFromDepth(from, target *ssa.Function, depth int) bool {
+	if depth < 0 {
+		return false
+	}
 	found := false
 	var walk func(f *ssa.Function)
 	walk = func(f *ssa.Function) {
 		for _, b := range f.Blocks {
 			for _, ins := range b.Instrs {
 				if call, ok := ins.(ssa.CallInstruction); ok {
-					if callee := call.Common().StaticCallee(); callee != nil && bodyOf(callee) == target {
-						found = true
+					if callee := call.Common().StaticCallee(); callee != nil {
+						if bodyOf(callee) == target {
+							found = true
+						} else if inRw(callee) && bodyOf(callee) != from && calledFromDepth(bodyOf(callee), target, depth-1) {
+							found = true
+						}
 					}
 				}
 			}
